@@ -1042,3 +1042,38 @@ impl ObjMemberBuilder<ExtendBuilder<'_>> {
 		*receiver.0 = new.extend_with_raw_member(name, member);
 	}
 }
+
+/// Verification hook: one layer of an object's core vector.
+#[cfg(jrsonnet_verif)]
+#[derive(Debug, Clone, PartialEq, Eq)]
+pub enum VerifCoreShape {
+	Oop(Vec<(IStr, bool, Visibility)>),
+	Omit(Vec<IStr>, usize),
+	StandaloneSuper(usize),
+	Other,
+}
+
+#[cfg(jrsonnet_verif)]
+impl ObjValue {
+	/// Verification hook: the layer vector of this object, bottom layer first.
+	pub fn verif_core_shape(&self) -> Vec<VerifCoreShape> {
+		self.0
+			.cores
+			.iter()
+			.map(|core| {
+				let any: &dyn Any = &*core.0;
+				if let Some(oop) = any.downcast_ref::<oop::OopObject>() {
+					VerifCoreShape::Oop(oop.verif_fields())
+				} else if let Some(omit) = any.downcast_ref::<OmitFieldsCore>() {
+					let mut names: Vec<IStr> = omit.omit.iter().cloned().collect();
+					names.sort();
+					VerifCoreShape::Omit(names, omit.prev_layers)
+				} else if let Some(sup) = any.downcast_ref::<StandaloneSuperCore>() {
+					VerifCoreShape::StandaloneSuper(sup.sup.idx)
+				} else {
+					VerifCoreShape::Other
+				}
+			})
+			.collect()
+	}
+}
